@@ -209,6 +209,11 @@ func (qry *Query) parse() error {
 			}
 			break
 		}
+		// Not an OPT record: skip it, otherwise AdditionalHeader keeps returning
+		// the same cached header and the loop never ends.
+		if err := p.SkipAdditional(); err != nil {
+			return fmt.Errorf("skip additional: %v", err)
+		}
 	}
 
 	return nil
